@@ -187,6 +187,7 @@ fn budget(prop: &str, tier: &str, seed: u64, scale: f64) -> Budget {
             sweeps.push(sweeps::c05_string_path_streams());
             sweeps.push(sweeps::small_geometry("C05", if quick { 200 } else if checked { 1300 } else { 600 }, if quick { 40 } else { 150 }));
             sweeps.push(sweeps::dimension_aliases("C05", seed));
+            sweeps.push(sweeps::extreme_widths("C05"));
         }
         "C08" => {
             random_runs = r(250_000, 80_000, 12_000_000, 3_000_000);
@@ -199,6 +200,7 @@ fn budget(prop: &str, tier: &str, seed: u64, scale: f64) -> Budget {
             sweeps.push(sweeps::c08_small_structure_subsets(seed));
             sweeps.push(sweeps::structured_data_fills("C08"));
             sweeps.push(sweeps::dimension_aliases("C08", seed));
+            sweeps.push(sweeps::extreme_widths("C08"));
         }
         _ => {
             eprintln!("unknown property {}", prop);
